@@ -747,6 +747,9 @@ func (g *G) genC15(p *Plan) {
 			}
 		case r < 90:
 			op = Op{K: "get", B: bkt(), Key: key()}
+			if g.chance(0.2) {
+				op.Status = "since-epoch"
+			}
 		default:
 			if crash {
 				op = Op{K: "head", B: bkt(), Key: key()}
